@@ -65,6 +65,13 @@ def _unicode_search(root, repo, args, timeout=900):
     env = dict(os.environ, CARGO_NET_OFFLINE="true", CARGO_TARGET_DIR=os.path.join(root, "out", "target-replay"))
     p = subprocess.run(["cargo", "run", "--offline", "--release", "-q", "--manifest-path", os.path.join(d, "Cargo.toml"), "--"] + args,
                        env=env, capture_output=True, text=True, timeout=timeout)
+    if p.returncode != 0 and "could not compile" in p.stderr and "WITNESS" not in p.stdout:
+        # the derive-generated parser over the advertised names does not build on this tree (the generator / validator rejects a
+        # name at macro-expansion time): run the remaining access paths without it so that a concrete witness can still be reported
+        p2 = subprocess.run(["cargo", "run", "--offline", "--release", "-q", "--no-default-features", "--manifest-path", os.path.join(d, "Cargo.toml"), "--"] + args,
+                            env=env, capture_output=True, text=True, timeout=timeout)
+        p2.stderr = "NOTE: the derive-generated parser for the advertised names did not compile on this tree:\n" + p.stderr[-1500:] + "\n" + p2.stderr
+        return p2
     return p
 
 
